@@ -103,7 +103,7 @@ Definition procI (s : state) (pid : nat) (p : proc) : Prop :=
   match pr_pc p with
   | PProbe hm h => pr_raced p = false -> h = yaml s (pr_path p)
   | PRead hm h => files s (probe_loc (pr_path p) hm h) <> None /\ (pr_raced p = false -> h = yaml s (pr_path p))
-  | PWHash d => d = parse g (yaml s (pr_path p)) /\ pr_src p = yaml s (pr_path p)
+  | PWHash d => d = parse g (pr_src p) /\ (w_rehash w = true -> pr_src p = yaml s (pr_path p))
   | PTrunc tgt d => wr_ok tgt d (pr_src p)
   | PWrite tgt d i => wr_ok tgt d (pr_src p) /\ i <= nch /\
                       (w_disc w = AtomicRename -> files s (Tmp pid) = Some (repeat (Some d) i))
@@ -159,7 +159,7 @@ Lemma procI_same_files s s' pid p :
 Proof. intros Hy Hf H; unfold procI in *; rewrite Hy, Hf; exact H. Qed.
 
 Definition guard (s : state) (l : label) : Prop :=
-  match l with LEdit pa _ => edit_ok s pa | _ => True end.
+  match l with LEdit pa _ => w_rehash w = true -> edit_ok s pa | _ => True end.
 
 Ltac inv_some := match goal with H : Some _ = Some _ |- _ => inversion H; subst; clear H end.
 
@@ -221,9 +221,12 @@ Proof.
       inv_some; apply inv_set_proc; auto; split; simpl; auto.
     + (* PWHash *)
       destruct Hpc as [Hd Hsy].
-      destruct (target (w_env w) (pr_path p) (yaml s (pr_path p))) as [t|] eqn:Et; inv_some;
+      assert (Hkey : (if w_rehash w then yaml s (pr_path p) else pr_src p) = pr_src p)
+        by (destruct (w_rehash w); auto; symmetry; auto).
+      rewrite Hkey in Hs.
+      destruct (target (w_env w) (pr_path p) (pr_src p)) as [t|] eqn:Et; inv_some;
         apply inv_set_proc; auto; split; simpl; auto.
-      split; [rewrite Hsy; eapply target_keyed; eauto | rewrite Hsy; auto].
+      split; [eapply target_keyed; eauto | auto].
     + (* PTrunc *)
       inv_some. destruct Hpc as [Hk Hd]. unfold set_file_pc. apply inv_set_file; [exact HI| | |].
       * intros; constructor.
@@ -280,7 +283,8 @@ Proof.
       destruct (pr_pc p) eqn:Epc; auto.
       * intro; discriminate.
       * destruct B; split; auto. intro; discriminate.
-      * specialize (HG _ _ Hp (eq_sym E)). rewrite Epc in HG; discriminate.
+      * destruct B as [B1 B2]. split; auto. intro Hr.
+        specialize (HG Hr _ _ Hp (eq_sym E)). rewrite Epc in HG; discriminate.
     + (* other file: its content did not change *)
       assert (Hy : updy (yaml s) pa c (pr_path pq) = yaml s (pr_path pq)) by (unfold updy; rewrite E; reflexivity).
       destruct HP as [A B]. unfold procI; simpl. rewrite Hy. split; auto.
@@ -342,7 +346,7 @@ Proof.
         destruct home; discriminate.
       * rewrite atomic in Hs; inv_some; apply K. destruct home; discriminate.
     + inv_some; apply K2; discriminate.
-    + destruct (target (w_env w) (pr_path p) (yaml s (pr_path p))); inv_some; apply K; discriminate.
+    + destruct (target (w_env w) (pr_path p) (if w_rehash w then yaml s (pr_path p) else pr_src p)); inv_some; apply K; discriminate.
     + inv_some; apply K; discriminate.
     + destruct (i <? w_nch w); [|rewrite atomic in Hs]; inv_some; apply K; discriminate.
     + destruct Hpc as [_ [Ht _]]. rewrite Ht in Hs. inv_some. apply K; discriminate.
@@ -372,7 +376,7 @@ Proof.
     + destruct (files s (probe_loc (pr_path p) home h)) as [b|]; [|inv_some; exact HN].
       destruct (decode (w_nch w) b); [destruct (d_iv d =? c_iv (w_cfg w))|destruct (w_disc w)]; inv_some; exact HN.
     + inv_some; exact HN.
-    + destruct (target (w_env w) (pr_path p) (yaml s (pr_path p))); inv_some; exact HN.
+    + destruct (target (w_env w) (pr_path p) (if w_rehash w then yaml s (pr_path p) else pr_src p)); inv_some; exact HN.
     + inv_some. intros l b h; simpl. unfold wloc; rewrite atomic.
       destruct (loc_eqb (Tmp pid) l) eqn:E.
       * apply loc_eqb_eq in E; subst l; discriminate.
@@ -452,7 +456,7 @@ Proof.
       destruct home; simpl; repeat split; auto; try lia; try discriminate.
   - eexists; eexists; split; [reflexivity|]; simpl; rewrite updp_same; split; [reflexivity|]; simpl.
     repeat split; auto; try lia; try discriminate.
-  - destruct (target (w_env w) (pr_path p) (yaml s (pr_path p)));
+  - destruct (target (w_env w) (pr_path p) (if w_rehash w then yaml s (pr_path p) else pr_src p));
       (eexists; eexists; split; [reflexivity|]; simpl; rewrite updp_same; split; [reflexivity|]; simpl);
       repeat split; auto; try lia; try discriminate.
   - eexists; eexists; split; [reflexivity|]; simpl; rewrite updp_same; split; [reflexivity|]; simpl.
@@ -518,22 +522,22 @@ Proof. split; intros *; simpl; discriminate. Qed.
 
 (* "a later run completes and returns the parse of the current content", whatever happened before *)
 Definition later_run_ok_stmt (disc : discipline) : Prop :=
-  forall nch g e s0 ls s pid pa, 0 < nch ->
-    let w := mkSetup nch g disc e in
+  forall nch g e rh s0 ls s pid pa, 0 < nch ->
+    let w := mkSetup nch g disc e rh in
     Inv w s0 -> quiet w s0 ls -> run w s0 ls = Some s -> procs s pid = None ->
     outcome_of (load w s pid pa false) pid = ODone (parse g (yaml s pa)).
 
 Lemma atomic_later_run_ok : later_run_ok_stmt AtomicRename.
 Proof.
-  intros nch g e s0 ls s pid pa Hn w HI HQ HR Hp.
+  intros nch g e rh s0 ls s pid pa Hn w HI HQ HR Hp.
   assert (HIs : Inv w s) by (eapply run_inv; eauto).
   destruct (later_load_ok w eq_refl Hn s pid pa HIs Hp) as [A _]. exact A.
 Qed.
 
 Definition gI := mkCfg 1 0.
 Definition eI := mkEnv (fun _ => true) true.
-Definition wI := mkSetup 4 gI InPlace eI.
-Definition wA := mkSetup 4 gI AtomicRename eI.
+Definition wI := mkSetup 4 gI InPlace eI true.
+Definition wA := mkSetup 4 gI AtomicRename eI true.
 Definition pa0 := mkPath 0 0.
 Definition y0 : path -> content := fun _ => 7.
 
@@ -557,7 +561,7 @@ Proof.
   intro H.
   assert (E : run wI (empty_state y0) hist_crash = Some (run_skip wI (empty_state y0) hist_crash)) by (vm_compute; reflexivity).
   assert (Q : quiet wI (empty_state y0) hist_crash) by (apply quiet_no_edit; reflexivity).
-  specialize (H 4 gI eI (empty_state y0) hist_crash _ 1 pa0 ltac:(lia) (Inv_empty _ _) Q E eq_refl).
+  specialize (H 4 gI eI true (empty_state y0) hist_crash _ 1 pa0 ltac:(lia) (Inv_empty _ _) Q E eq_refl).
   vm_compute in H. discriminate.
 Qed.
 
@@ -585,7 +589,7 @@ Proof.
 Qed.
 
 (* an edit between a load's parse and the hash it takes for the write poisons the cache under either discipline *)
-Definition wA1 := mkSetup 1 gI AtomicRename eI.
+Definition wA1 := mkSetup 1 gI AtomicRename eI true.
 Definition hist_edit_race : list label :=
   [LSpawn 0 pa0 false] ++ repeat (LStep 0) 4 ++ [LEdit pa0 8] ++ repeat (LStep 0) 5 ++
   [LSpawn 1 pa0 false] ++ repeat (LStep 1) 3.
@@ -662,5 +666,55 @@ Lemma demo_history :
 Proof.
   eexists. split; [apply Inv_empty|]. split; [|split; [vm_compute; reflexivity|repeat split; vm_compute; reflexivity]].
   vm_compute. repeat split.
-  intros pid q H. destruct pid as [|[|pid]]; inversion H; subst; reflexivity.
+  intros _ pid q H. destruct pid as [|[|pid]]; inversion H; subst; reflexivity.
 Qed.
+
+(* ------------------------------------------------------------------ code that keys the cache by the parsed bytes
+   (w_rehash = false, no third read): no restriction on edits is needed *)
+Lemma quiet_no_rehash w ls : w_rehash w = false -> forall s, quiet w s ls.
+Proof.
+  intro H; induction ls as [|l r IH]; simpl; intro s; auto. split.
+  - destruct l; auto. intro K; congruence.
+  - destruct (step w s l); auto.
+Qed.
+
+Definition refines_full_stmt : Prop :=
+  forall w s0 ls s pid p d, w_rehash w = false ->
+    Inv w s0 -> run w s0 ls = Some s -> procs s pid = Some p -> pr_pc p = PDone d ->
+    d = parse (w_cfg w) (pr_src p) /\ (pr_raced p = false -> d = parse (w_cfg w) (yaml s (pr_path p))).
+
+Lemma refines_full : refines_full_stmt.
+Proof.
+  intros w s0 ls s pid p d Hr HI HR Hp Hd. eapply refines_guarded; eauto. simpl. apply quiet_no_rehash; auto.
+Qed.
+
+(* the repaired code: temp file + rename, unreadable = miss, key = hash of the parsed bytes *)
+Lemma current_code_later_run_ok :
+  forall nch g e s0 ls s pid pa, 0 < nch ->
+    let w := mkSetup nch g AtomicRename e false in
+    Inv w s0 -> run w s0 ls = Some s -> procs s pid = None ->
+    outcome_of (load w s pid pa false) pid = ODone (parse g (yaml s pa)).
+Proof.
+  intros nch g e s0 ls s pid pa Hn w HI HR Hp.
+  apply (atomic_later_run_ok nch g e false s0 ls s pid pa Hn HI (quiet_no_rehash w ls eq_refl s0) HR Hp).
+Qed.
+
+Lemma current_code_safe :
+  forall nch g e s0 ls s, 0 < nch ->
+    let w := mkSetup nch g AtomicRename e false in
+    Inv w s0 -> run w s0 ls = Some s ->
+    Inv w s /\ (NoRaise s0 -> NoRaise s) /\ (NoPartial w s0 -> NoPartial w s).
+Proof.
+  intros nch g e s0 ls s Hn w HI HR.
+  pose proof (quiet_no_rehash w ls eq_refl s0) as HQ.
+  split; [eapply run_inv; eauto|]. exact (run_atomic w eq_refl Hn ls s0 s HI HQ HR).
+Qed.
+
+(* the history that poisons the cache of re-hashing code is harmless here: the racing load stores parse 7 under key 7,
+   the later load of the edited file parses content 8 *)
+Definition wA1n := mkSetup 1 gI AtomicRename eI false.
+Lemma edit_race_harmless_without_rehash :
+  let s := run_skip wA1n (empty_state y0) (hist_edit_race ++ repeat (LStep 1) 12) in
+  outcome_of s 0 = ODone (parse gI 7) /\ outcome_of s 1 = ODone (parse gI 8) /\
+  observe wA1n s (Comp 0 0 7) = OComplete (parse gI 7) /\ observe wA1n s (Comp 0 0 8) = OComplete (parse gI 8).
+Proof. repeat split; vm_compute; reflexivity. Qed.
